@@ -5,6 +5,7 @@ CONSTANTS
   L = 3
   NSet = {2, 3, 4}
   Rich = FALSE
+  Rot = TRUE
 INIT InitAll
 NEXT Next
 CHECK_DEADLOCK FALSE
